@@ -52,6 +52,16 @@ CHECKS["C17"] = ("proof",
     "Trusted: %-formatting/int()/find as modelled; the exception contract of decode_datagram (observed on the bounded garbage, not "
     "proved); composite lists have concrete length; dictionary keys concrete. Not decided: decoder totality for all inputs up to 64 KiB.",
     "symbolic execution of the real AST (structural byte segments incl. decimal segments), VCs by z3/cvc5", "3 C17")
+CHECKS["C01"] = ("proof",
+    "One write step of the real HashBlobWriter from an ARBITRARY state satisfying the writer invariant (so: every chunking and history): "
+    "a result only for exactly the announced length with matching SHA-384, complete correct copies accepted, over-long / wrong-hash "
+    "refused and closed, short writes keep the invariant, refused writes leave the writer untouched, other writers unaffected (frame), "
+    "no suspension point in write (atomicity). Blob level on the real AbstractBlob/BlobBuffer with the asyncio model: three concurrent "
+    "writers in 5 interleavings: verified only with the winner's bytes hashing to the name, others shut down, completion once; never "
+    "verified without a correct copy; set_length bounds. BlobFile on disk: bounded stand-in (32 scenarios).",
+    "Trusted: sha384 as a function of the fed bytes (incremental == one-shot), BytesIO, the asyncio model in pyvc/pymodels.py (FIFO ready "
+    "queue). Not decided: more than 3 writers x 2 chunks at blob level, disk persistence beyond the stand-in, loop shutdown/GC.",
+    "symbolic execution of the real AST with state injection (writer invariant) and an asyncio scheduler model, VCs by z3/cvc5", "3 C01")
 NOT_YET = {}
 
 def main():
